@@ -5,8 +5,12 @@ FAMILIES = ['plain', 'full', 'timeout', 'shutdown']
 PER_FAMILY = (300, 6000)
 
 
+PROOF = dict(prop_file='Props/C04.v', theorems=['C04_one_future_per_step', 'C04_slots_conserved', 'C04_slots_invariant', 'C04_token_unique'], tf_families=['plain', 'full', 'timeout', 'shutdown'], tf_per_family=(100, 1500),
+             note="exception types / __cause__ of the failed future and the 'pool stays unbroken' clause are decided by the simulation monitors, not by a theorem")
+
+
 def run(ctx):
-    return S.sim_check(ctx, FAMILIES, FAMILIES, PER_FAMILY, S.SIM_ASSUME)
+    return S.sim_check(ctx, FAMILIES, FAMILIES, PER_FAMILY, S.SIM_ASSUME, proof=PROOF)
 
 
 def replay(ctx, path):
